@@ -649,6 +649,11 @@ class Interp:
             return V.sym_truediv(a, b)
         if isinstance(e.op, ast.Mult) and isinstance(b, V.SymInt) and isinstance(a, (bytes, bytearray)):
             return a * V.alloc_guard(b)
+        if isinstance(e.op, ast.Mult) and isinstance(b, V.SymInt) and isinstance(a, (list, tuple)):
+            # a list of 8-byte references per element: the same allocation budget, counted in bytes
+            return a * (V.alloc_guard(b * 8 * max(len(a), 1)) // (8 * max(len(a), 1)))
+        if isinstance(e.op, ast.Mult) and isinstance(a, V.SymInt) and isinstance(b, (list, tuple)):
+            return b * (V.alloc_guard(a * 8 * max(len(b), 1)) // (8 * max(len(b), 1)))
         if isinstance(e.op, ast.Mult) and isinstance(b, int) and not isinstance(b, bool) and isinstance(a, (bytes, bytearray)) and len(a) * b > V.SYM_ALLOC_CAP:
             V.alloc_guard(len(a) * b)
         return _BINOPS[type(e.op)](a, b)
